@@ -183,6 +183,7 @@ def check_coupling(ctx, key, m):
             elif e[0] == 'stmt' and isinstance(e[1], ast.Assign) and isinstance(e[1].targets[0], ast.Name) and e[1].targets[0].id in role:
                 val = T.simp(b.t(e[1].value))
                 node = e[1]
+                b.exec_stmt(e[1])     # `c = self._constraints; if strict: c = and_(c, ...)` couples the same value
         if val is None:
             continue
         for sv in ((True, False) if strict is None else (strict,)):
